@@ -154,15 +154,6 @@ Proof. intros Hv. apply frame_step; auto. Qed.
 
 (* independence INSIDE one handle: an update at path p2 is invisible at a path p1 that diverges from it (neither is a
    prefix of the other), e.g. the source and the destination of a CopyTo between two elements of one payload *)
-Fixpoint diverge (p1 p2 : path) : bool :=
-  match p1, p2 with
-  | PS j i :: q1, PS j' i' :: q2 => if Nat.eqb j j' && Nat.eqb i i' then diverge q1 q2 else true
-  | PR j :: q1, PR j' :: q2 => if Nat.eqb j j' then diverge q1 q2 else true
-  | PS j _ :: _, PR j' :: _ => negb (Nat.eqb j j')
-  | PR j :: _, PS j' _ :: _ => negb (Nat.eqb j j')
-  | _, _ => false
-  end.
-
 Lemma nth_error_upd_other {A} (l : list A) i k x : i <> k -> nth_error (upd l i x) k = nth_error l k.
 Proof. intros H. rewrite nth_error_upd. apply Nat.eqb_neq in H. now rewrite H. Qed.
 
@@ -275,4 +266,63 @@ Proof.
   split; [exact S|]. split.
   - unfold check_both, check_case. simpl. rewrite (model_passes_check_run p cstate0 sels). exact S.
   - apply spec_verdict_none. exact S.
+Qed.
+
+(* ---- moves INSIDE one handle (two diverging positions of one payload) ------------------------------------------------------ *)
+Definition aslot (r : vrow) (p : path) (j : nat) : option vslot := opt_bind (aget r p) (fun q => nth_error q j).
+
+(* writing the slot (p2, j2) does not change what is read at a slot (p1, j1) that diverges from it *)
+Lemma aslot_aupd_sdiverge j1 j2 (f : vslot -> vslot) p1 : forall p2 r r', sdiverge p1 j1 p2 j2 = true ->
+  aupd r p2 (on_slot j2 f) = Some r' -> aslot r' p1 j1 = aslot r p1 j1.
+Proof.
+  unfold aslot. induction p1 as [|s1 q1 IH]; intros [|s2 q2] r r' Hd Hu; simpl in Hd.
+  - simpl in *. unfold on_slot in Hu. destruct (nth_error r j2) as [s|] eqn:E; inversion Hu; subst.
+    apply negb_true_iff, Nat.eqb_neq in Hd. rewrite nth_error_upd_other; auto.
+  - apply negb_true_iff, Nat.eqb_neq in Hd. simpl. destruct s2 as [j' i'|j']; simpl in Hu, Hd.
+    + destruct (nth_error r j') as [[| | |rows]|] eqn:Ej; try discriminate.
+      destruct (nth_error rows i') as [r0|] eqn:Ei; try discriminate. destruct (aupd r0 q2 _) as [r0'|]; inversion Hu; subst.
+      rewrite nth_error_upd_other; auto.
+    + destruct (nth_error r j') as [[| |[[t r0]|]|]|] eqn:Ej; try discriminate. destruct (aupd r0 q2 _) as [r0'|]; inversion Hu; subst.
+      rewrite nth_error_upd_other; auto.
+  - simpl in Hu. unfold on_slot in Hu. destruct (nth_error r j2) as [s|] eqn:E; inversion Hu; subst.
+    destruct s1 as [j i|j]; simpl in *; apply negb_true_iff, Nat.eqb_neq in Hd; rewrite nth_error_upd_other; auto.
+  - destruct s1 as [j i|j]; destruct s2 as [j' i'|j']; simpl in Hu, Hd.
+    + destruct (nth_error r j') as [[| | |rows]|] eqn:Ej; try discriminate.
+      destruct (nth_error rows i') as [r0|] eqn:Ei; try discriminate. destruct (aupd r0 q2 _) as [r0'|] eqn:Eu; inversion Hu; subst. simpl.
+      destruct (Nat.eqb j j') eqn:Ejj.
+      * apply Nat.eqb_eq in Ejj. subst j'. rewrite (nth_error_upd_same _ _ _ _ Ej), Ej.
+        destruct (Nat.eqb i i') eqn:Eii.
+        -- apply Nat.eqb_eq in Eii. subst i'. rewrite (nth_error_upd_same _ _ _ _ Ei), Ei. eapply IH; eauto.
+        -- apply Nat.eqb_neq in Eii. rewrite nth_error_upd_other by auto. reflexivity.
+      * apply Nat.eqb_neq in Ejj. rewrite nth_error_upd_other by auto. reflexivity.
+    + apply negb_true_iff, Nat.eqb_neq in Hd.
+      destruct (nth_error r j') as [[| |[[t r0]|]|]|] eqn:Ej; try discriminate. destruct (aupd r0 q2 _) as [r0'|]; inversion Hu; subst. simpl.
+      rewrite nth_error_upd_other; auto.
+    + apply negb_true_iff, Nat.eqb_neq in Hd.
+      destruct (nth_error r j') as [[| | |rows]|] eqn:Ej; try discriminate.
+      destruct (nth_error rows i') as [r0|] eqn:Ei; try discriminate. destruct (aupd r0 q2 _) as [r0'|]; inversion Hu; subst. simpl.
+      rewrite nth_error_upd_other; auto.
+    + destruct (nth_error r j') as [[| |[[t r0]|]|]|] eqn:Ej; try discriminate. destruct (aupd r0 q2 _) as [r0'|] eqn:Eu; inversion Hu; subst. simpl.
+      destruct (Nat.eqb j j') eqn:Ejj.
+      * apply Nat.eqb_eq in Ejj. subst j'. rewrite (nth_error_upd_same _ _ _ _ Ej), Ej. eapply IH; eauto.
+      * apply Nat.eqb_neq in Ejj. rewrite nth_error_upd_other by auto. reflexivity.
+Qed.
+
+(* Value / Map / primitive-slice MoveTo between two diverging slots of ONE handle: the destination reads the old source, the
+   source reads empty (the rename of an attribute, body -> attribute, element -> element of one slice ...) *)
+Lemma a_move_slot_same sc st h p1 j1 p2 j2 st' :
+  astep sc st (OMoveSlot h p1 j1 h p2 j2) = (st', 0) ->
+  exists r r' s, arow_of st h = Some r /\ arow_of st' h = Some r' /\
+                 aslot r p1 j1 = Some s /\ aslot r' p2 j2 = Some s /\ aslot r' p1 j1 = Some (vmoved s).
+Proof.
+  unfold astep. destruct (aro st h || aro st h); try discriminate. rewrite Nat.eqb_refl.
+  destruct (sdiverge p1 j1 p2 j2) eqn:Hd; try discriminate. unfold asame.
+  destruct (arow_of st h) as [r|] eqn:Er; try discriminate.
+  destruct (opt_bind (aget r p1) _) as [s|] eqn:Es; try discriminate.
+  destruct (aupd r p1 _) as [r1|] eqn:E1; simpl; try discriminate.
+  destruct (aupd r1 p2 _) as [r2|] eqn:E2; try discriminate. intros H; inversion H; subst.
+  exists r, r2, s. split; auto. split; [eapply arow_aset_same; eauto|]. split; [exact Es|]. fold (aslot r p1 j1) in Es.
+  destruct (aupd_slot_read _ _ _ _ _ E2) as (d & _ & B2). destruct (aupd_slot_read _ _ _ _ _ E1) as (s0 & A1 & B1).
+  unfold aslot in Es. rewrite Es in A1. inversion A1; subst s0. split; [exact B2|].
+  rewrite (aslot_aupd_sdiverge j1 j2 (fun _ => s) p1 p2 r1 r2 Hd E2). exact B1.
 Qed.
